@@ -84,7 +84,9 @@ CASES = [
     R("r-parity-branches-swapped", UP, "UtilityParity.__init__: first two (exclusive) branches swapped, chain split, parentheses dropped",
       (PARITY, "        if difference_bound is not None and ratio_bound is None:\n            self.eps = difference_bound\n            self.ratio = 1.0\n"
                "        elif difference_bound is None and ratio_bound is None:\n            self.eps = _DEFAULT_DIFFERENCE_BOUND\n            self.ratio = 1.0\n"),
-      (RATIO, "            if not (ratio_bound > 0 and ratio_bound <= 1):\n")),
+      (RATIO, "            if not (ratio_bound > 0 and ratio_bound <= 1):\n"),
+      expect="changed", why="regressed by the `parityEps` lifting merged from upstream after this work package's base (fix c80f72a: "
+      "`if self.eps < 0: raise`): the value of self.eps is emitted as a nested if in SOURCE order of the branches; parityCtor itself is unchanged"),
     R("r-parity-nested", UP, "UtilityParity.__init__: dispatch nested on ratio_bound first",
       (PARITY + "        elif (difference_bound is None) and (ratio_bound is not None):\n            self.eps = ratio_bound_slack\n" + RATIO +
        "                raise ValueError(_MESSAGE_RATIO_NOT_IN_RANGE)\n            self.ratio = ratio_bound\n        else:\n"
@@ -92,7 +94,9 @@ CASES = [
        "        if ratio_bound is None:\n            self.eps = _DEFAULT_DIFFERENCE_BOUND if difference_bound is None else difference_bound\n            self.ratio = 1.0\n"
        "        elif difference_bound is None:\n            self.eps = ratio_bound_slack\n" + RATIO +
        "                raise ValueError(_MESSAGE_RATIO_NOT_IN_RANGE)\n            self.ratio = ratio_bound\n        else:\n"
-       "            raise ValueError(_MESSAGE_INVALID_BOUNDS)\n")),
+       "            raise ValueError(_MESSAGE_INVALID_BOUNDS)\n"),
+      expect="refused", why="regressed by the `parityEps` lifting merged from upstream after this work package's base: its eps_of() "
+      "reads one flat if/elif chain and no conditional expression"),
     R("r-costs-inverted", ER, "ErrorRate.__init__: `if costs is not None` first, comparisons read from the other side, key set reordered",
       (COSTS, "        if costs is not None:\n            if (\n                isinstance(costs, dict)\n                and costs.keys() == {\"fn\", \"fp\"}\n"
               "                and 0.0 <= costs[\"fp\"]\n                and 0.0 <= costs[\"fn\"]\n                and 0.0 < costs[\"fp\"] + costs[\"fn\"]\n            ):\n"
